@@ -139,6 +139,32 @@ def run_cvc5(text, outputs, timeout_ms, want_model=True):
     return res
 
 
+OLD_Z3 = '/usr/bin/z3'
+
+
+def run_z3_cli(text, timeout_ms):
+    """third back end: the Debian z3 4.8.12 binary (different quantifier heuristics)"""
+    import subprocess
+    import tempfile
+    t0 = time.time()
+    with tempfile.NamedTemporaryFile('w', suffix='.smt2', delete=False) as f:
+        f.write(text)
+        path = f.name
+    try:
+        p = subprocess.run([OLD_Z3, '-T:%d' % max(1, int(timeout_ms / 1000)), path],
+                           capture_output=True, text=True, timeout=timeout_ms / 1000 + 10)
+        out = (p.stdout or '').strip().splitlines()
+        ans = out[0].strip() if out else 'unknown'
+        if ans not in ('sat', 'unsat'):
+            ans = 'unknown'
+        return {'answer': ans, 'time': time.time() - t0, 'backend': 'z3-4.8.12-cli',
+                'detail': None if ans != 'unknown' else ' '.join(out)[:200]}
+    except Exception as e:
+        return {'answer': 'unknown', 'time': time.time() - t0, 'backend': 'z3-4.8.12-cli', 'detail': repr(e)}
+    finally:
+        os.unlink(path)
+
+
 # ---------------------------------------------------------------------- portfolio
 def solve_one(job):
     """job: dict(name, z3_text|None, cvc5_text, outputs, budget_ms). Runs in a worker."""
@@ -154,6 +180,12 @@ def solve_one(job):
             return res
     res2 = run_cvc5(job['cvc5_text'], outputs, budget)
     attempts.append({k: res2.get(k) for k in ('backend', 'answer', 'time', 'detail')})
+    if res2['answer'] not in ('sat', 'unsat') and job.get('z3_text') and os.path.exists(OLD_Z3):
+        res3 = run_z3_cli(job['z3_text'], budget)
+        attempts.append({k: res3.get(k) for k in ('backend', 'answer', 'time', 'detail')})
+        if res3['answer'] in ('sat', 'unsat'):
+            res3['attempts'] = attempts
+            return res3
     res2['attempts'] = attempts
     if res2['answer'] == 'error' and res is not None and res['answer'] != 'error':
         res['attempts'] = attempts
